@@ -147,7 +147,8 @@ def energy(case, ctx):
         pw = float(Iw.sum())
         if pw > p_in * (1 + rel) + 1e-300:
             raise Violation("C05.window.bound", f"window {wdw} captures {pw:.12e} > input power {p_in:.12e}")
-        if pw < prev * (1 - rel) - 1e-300:
+        # windows that capture less than 1e-12 of the input power hold rounding noise of the transform only
+        if pw < prev * (1 - rel) - 1e-12 * p_in - 1e-300:
             raise Violation("C05.window.monotone", f"window {wdw} captures {pw:.12e} < {prev:.12e} captured by the "
                                                    f"window {prev_w} it contains")
         prev, prev_w = pw, wdw
